@@ -6,6 +6,7 @@
 -/
 import Proofs.Lemmas.Cycles
 import Proofs.Lemmas.CyclesIdx
+import Proofs.Lemmas.CyclesSlices
 
 namespace C12
 open Cycles
@@ -136,6 +137,74 @@ theorem code_model_no_wrap (w : α → α → Bool) (acc : List α → Bool) (xs
   simp only [cvIdx, hw, ite_true] at hl
   exact (List.mem_replicate.mp hl).2
 
+/-! ## "Never fails": the code-shaped model never tests an empty segment
+
+Scope of the statement (see also c12.py TRUSTED / ASSUMPTIONS):
+* The branch `if phase.max() > 2*pi: phase = wrap_phase(phase)` of `get_cycle_vector` is an ORACLE: the
+  harness applies the real `emd.imftools.wrap_phase` before handing the phase to the model, nothing is
+  proved about it (it is a `mod 2π` on floats and cannot raise on finite input).
+* The mask is a Boolean vector (`List Bool`).  Integer-typed masks are outside the documented type and
+  outside the model: the code computes `any(~mask[a:b])`, and `~1 = -2` is truthy, so a 0/1 integer mask
+  vetoes every cycle; a multi-column mask makes `any` raise.
+* `is_good` raises IndexError on an empty segment (`phase[0]`); the model's `isGoodChecks` answers `none`
+  there.  The theorems below show this branch is unreachable from `get_cycle_vector`. -/
+
+/-- The boundary list the segment loop runs over, `0 :: (where(|diff| > step) + 1) ++ [n]`, is strictly
+    increasing and bounded by the record length — also when a wrap sits at the first or the last sample
+    (wrap positions lie in 1..n-1, so the two guards `inds[0] >= 1`, `inds[-1] <= n-1` of the code are
+    always true). -/
+theorem code_model_boundaries (w : α → α → Bool) (xs : List α) (hx : xs ≠ []) :
+    (0 :: wrapIdx w xs 0 ++ [xs.length]).Pairwise (· < ·) ∧
+    (∀ b ∈ 0 :: wrapIdx w xs 0 ++ [xs.length], b ≤ xs.length) ∧
+    ∀ i ∈ wrapIdx w xs 0, 1 ≤ i ∧ i ≤ xs.length - 1 :=
+  ⟨boundaries_pairwise w xs hx, boundaries_le w xs, fun i hi => by
+    have := wrapIdx_bounds w xs 0 i hi; omega⟩
+
+/-- **Every slice `phase[a:b]` handed to the acceptance test by the segment loop is non-empty** — for
+    every input, every wrap predicate, whenever the loop is entered at all (at least one wrap found;
+    otherwise the code returns before the loop). -/
+theorem code_model_slices_nonempty (w : α → α → Bool) (xs : List α) (hw : wrapIdx w xs 0 ≠ []) :
+    ∀ s ∈ segSlices xs (0 :: wrapIdx w xs 0 ++ [xs.length]), s ≠ [] := by
+  have hx : xs ≠ [] := by intro h; subst h; simp [wrapIdx] at hw
+  exact segSlices_nonempty xs _ (boundaries_pairwise w xs hx) (boundaries_le w xs)
+
+/-- The segment loop consults the acceptance test on those slices and nowhere else: two acceptance
+    tests that agree on them give the same label vector. -/
+theorem code_model_tests_only_slices (w : α → α → Bool) (acc acc' : List α → Bool) (xs : List α)
+    (h : ∀ s ∈ segSlices xs (0 :: wrapIdx w xs 0 ++ [xs.length]), acc s = acc' s) :
+    cvIdx w acc xs = cvIdx w acc' xs := by
+  unfold cvIdx
+  simp only []
+  split
+  · rfl
+  · exact segLoop_congr acc acc' xs _ h 0 _
+
+/-- Hence what the acceptance test does on an EMPTY segment (`is_good` raises IndexError there) has no
+    influence on the result: the raising branch is unreachable. -/
+theorem code_model_never_tests_empty (w : α → α → Bool) (acc acc' : List α → Bool) (xs : List α)
+    (h : ∀ l, l ≠ [] → acc l = acc' l) : cvIdx w acc xs = cvIdx w acc' xs := by
+  by_cases hw : wrapIdx w xs 0 = []
+  · simp [cvIdx, hw]
+  · exact code_model_tests_only_slices w acc acc' xs (fun s hs => h s (code_model_slices_nonempty w xs hw s hs))
+
+/-- For `get_cycle_vector` itself (phase + Boolean mask, either value of `return_good`): on every slice
+    the loop tests, `is_good` gets a non-empty phase segment, i.e. `isGoodChecks` is never in its
+    IndexError branch (`none`). -/
+theorem is_good_never_raises (g : GoodCfg) (step : Rat) (ph : List Rat) (mask : List Bool)
+    (hw : wrapIdx (wrapP step) (ph.zip mask) 0 ≠ []) :
+    ∀ s ∈ segSlices (ph.zip mask) (0 :: wrapIdx (wrapP step) (ph.zip mask) 0 ++ [(ph.zip mask).length]),
+      (isGoodChecks g (s.map (·.1))).isSome = true := by
+  intro s hs
+  exact isGoodChecks_isSome g _ (by simpa using code_model_slices_nonempty (wrapP step) (ph.zip mask) hw s hs)
+
+/-- Full cover stated for the public entry point: all cycles requested, no mask, at least one wrap ⇒
+    every sample of `getCycleVector` carries a label ≥ 0. -/
+theorem getCycleVector_all_cover (g : GoodCfg) (step : Rat) (ph : List Rat)
+    (hw : wrapIdx (wrapAt step) ph 0 ≠ []) :
+    ∀ l ∈ getCycleVector g step false ph (List.replicate ph.length true), 0 ≤ l := by
+  rw [getCycleVector_nomask, ← code_model_refines]
+  exact code_model_all_cover _ ph hw
+
 /-! Non-vacuity: a concrete series with two wraps, three cycles, all hypotheses met
     (integer samples; the theorems are generic in the sample type). -/
 def wInt (a b : Int) : Bool := decide (4 < (b - a).natAbs)
@@ -143,5 +212,9 @@ example : paint (cvSegs wInt (fun _ => true) [1, 3, 6, 0, 2, 6, 1, 4]) = [0, 0, 
 example : 2 ≤ (runsBy wInt [1, 3, 6, 0, 2, 6, 1, 4]).length := by decide
 example : cvIdx wInt (fun _ => true) [1, 3, 6, 0, 2, 6, 1, 4] = [0, 0, 0, 1, 1, 1, 2, 2] := by decide
 example : (2 : Nat) < nCycles (cvSegs wInt (fun _ => true) [1, 3, 6, 0, 2, 6, 1, 4]) := by decide
+-- wraps at the first and at the last sample: boundaries [0, 1, 4, 5], slices of lengths 1, 3, 1
+example : wrapIdx wInt [9, 1, 2, 3, 9] 0 = [1, 4] := by decide
+example : segSlices [9, 1, 2, 3, 9] (0 :: wrapIdx wInt [9, 1, 2, 3, 9] 0 ++ [5]) = [[9], [1, 2, 3], [9]] := by decide
+example := code_model_slices_nonempty wInt [9, 1, 2, 3, 9] (by decide)
 
 end C12
